@@ -740,10 +740,10 @@ theorem tables_entry_ax (d : Nat) (hd : d < 27) (a : Ax) :
 structure Start (b : Block K) (ph : Photon K) (inDir : Nat) : Prop where
   dir_ok : inDir < 27
   inv_ok : ∀ a, b.inv.get a * b.cs.get a = 1
-  /-- on every axis whose index is computed from the position, the position is owned by a cell
-  of the block (half-open: `0 ≤ x < n·cell_size`) -/
+  /-- on every axis whose index is computed from the position, the position lies in the closed
+  block: `0 ≤ x ≤ n·cell_size` (a position on the upper boundary belongs to the last cell) -/
   owned : ∀ a, idxKind inDir a = 0 →
-    0 ≤ ph.pos.get a - b.anchor.get a ∧ ph.pos.get a - b.anchor.get a < top b a
+    0 ≤ ph.pos.get a - b.anchor.get a ∧ ph.pos.get a - b.anchor.get a ≤ top b a
 
 section entry
 variable (b : Block K) (cells : Nat → Cell K) (ph : Photon K) (inDir : Nat)
@@ -786,20 +786,27 @@ theorem init_axis (hv : Valid b cells ph) (hs : Start b ph inDir) (a : Ax) :
       linarith
     have hx0 : 0 ≤ x := mul_nonneg hown.1 hinvpos.le
     have hxr : x * b.cs.get a = r := by rw [hx, mul_assoc, hinv, mul_one]
-    have hxn : x < (b.n.get a : K) := by
+    have hxn : x ≤ (b.n.get a : K) := by
       have h2 := hown.2; rw [top_eq, ← hxr] at h2
-      exact lt_of_mul_lt_mul_right h2 hcs.le
+      exact le_of_mul_le_mul_right h2 hcs
     obtain ⟨f1, f2, f3⟩ := floorUpTo_spec (b.n.get a) x hx0
-    have f4 : x < ((floorUpTo (b.n.get a) x : Nat) : K) + 1 := by
-      rcases f3 with f3 | f3
-      · exact f3
-      · rw [f3] at f1; linarith
-    have f5 : floorUpTo (b.n.get a) x < b.n.get a := by
-      have : ((floorUpTo (b.n.get a) x : Nat) : K) < (b.n.get a : K) := lt_of_le_of_lt f1 hxn
-      exact_mod_cast this
-    refine ⟨⟨by omega, by exact_mod_cast f5⟩, ?_, ?_⟩
-    · rw [← hxr]; push_cast; exact mul_le_mul_of_nonneg_right f1 hcs.le
-    · rw [← hxr]; push_cast; exact mul_le_mul_of_nonneg_right f4.le hcs.le
+    unfold clampIdx
+    by_cases hlast : floorUpTo (b.n.get a) x = b.n.get a
+    · -- the position is exactly on the upper boundary: clamped to the last cell
+      have hxe : x = (b.n.get a : K) := le_antisymm hxn (by rw [hlast] at f1; exact f1)
+      rw [hlast, if_pos (by omega)]
+      refine ⟨⟨by omega, by omega⟩, ?_, ?_⟩
+      · rw [← hxr, hxe]; push_cast; nlinarith
+      · rw [← hxr, hxe]; push_cast; nlinarith
+    · have f5 : floorUpTo (b.n.get a) x < b.n.get a := lt_of_le_of_ne f2 hlast
+      have f4 : x < ((floorUpTo (b.n.get a) x : Nat) : K) + 1 := by
+        rcases f3 with f3 | f3
+        · exact f3
+        · exact absurd f3 hlast
+      rw [if_neg (by omega)]
+      refine ⟨⟨by omega, by exact_mod_cast f5⟩, ?_, ?_⟩
+      · rw [← hxr]; push_cast; exact mul_le_mul_of_nonneg_right f1 hcs.le
+      · rw [← hxr]; push_cast; exact mul_le_mul_of_nonneg_right f4.le hcs.le
   · rw [hk]; simp only [lit0]
     refine ⟨⟨le_refl _, by exact_mod_cast hn⟩, ?_, ?_⟩
     · simp
